@@ -1,6 +1,6 @@
 (* C04 — all documented routes to the same quantity agree.  Statements only. *)
 From TV Require Import Common.Prelude Model.IndexSets Model.RuleLocal Model.Selection Model.Hier Model.LocalGrid.
-From TV Require Import Proofs.HierProofs Proofs.LocalGridProofs Proofs.RuleLocalProofs.
+From TV Require Import Proofs.HierProofs Proofs.LocalGridProofs Proofs.RuleLocalProofs Proofs.LocalComplete.
 From Coq Require Import QArith Qabs Qcanon Ring.
 Local Open Scope Z_scope.
 
@@ -32,6 +32,18 @@ Theorem c04_coefficients_unique : forall r order pts (vals : list (idx * Qc)), h
     forall i, In i (by_level r pts) -> c1 i = c2 i.
 Proof. exact localgrid_unique. Qed.
 
+(* ... unbounded: on EVERY well-formed local polynomial grid with a complete hierarchy (every binary rule, order, dimension) the
+   hierarchical coefficients are determined by the values: set/get coefficients is a bijection with the value vectors *)
+Theorem c04_coefficients_unique_complete_unbounded : forall r order d pts (vals : list (idx * Qc)),
+  binary r -> wellformed d pts -> parent_complete r pts = true ->
+  forall c1 c2 : idx -> Qc,
+  (forall i, In i (by_level r pts) ->
+     Hier.sum Qc 0%Qc Qcplus idx (by_level r pts) (fun j => (Bc r order i j * c1 j)%Qc) = assoc vals i) ->
+  (forall i, In i (by_level r pts) ->
+     Hier.sum Qc 0%Qc Qcplus idx (by_level r pts) (fun j => (Bc r order i j * c2 j)%Qc) = assoc vals i) ->
+  forall i, In i (by_level r pts) -> c1 i = c2 i.
+Proof. exact localpoly_complete_unique. Qed.
+
 (* every local-polynomial basis function that is evaluated through the scaled coordinate vanishes at every x farther
    from its node than the support radius, for every order (all points of localp except 0, of localp0 and localpb, and
    the points >= 3 of semi-localp) *)
@@ -52,5 +64,6 @@ Proof. split; [cbn; lia|]. split; [vm_compute; reflexivity|]. split; [vm_compute
 
 Print Assumptions c04_weights_values.
 Print Assumptions c04_coefficients_unique.
+Print Assumptions c04_coefficients_unique_complete_unbounded.
 Print Assumptions c04_support_zero.
 Print Assumptions c04_semilocalp_quadratics_radius.
